@@ -621,7 +621,7 @@ class SwitchController(MpfController):
                 switch.name, state, ms)
 
         for entry in list(self.registered_switches[switch][state]):
-            if entry.ms == ms and entry.callback == callback:
+            if entry.ms == ms and self._is_callback(entry.callback, callback):
                 entry.cancelled = True
                 self.registered_switches[switch][state].remove(entry)
 
@@ -629,7 +629,16 @@ class SwitchController(MpfController):
             for k in list(self._active_timed_switches[switch].keys()):
                 self._active_timed_switches[switch][k] = [
                     entry for entry in self._active_timed_switches[switch][k]
-                    if not (entry.state == state and entry.ms == ms and entry.callback == callback)]
+                    if not (entry.state == state and entry.ms == ms and self._is_callback(entry.callback, callback))]
+
+    @staticmethod
+    def _is_callback(registered_callback, callback) -> bool:
+        """Return true if a registered callback is the callback (or a partial which add_switch_handler built around it).
+
+        Handlers registered with return_info or callback_kwargs are stored as partials.
+        """
+        return registered_callback == callback or (
+            isinstance(registered_callback, partial) and registered_callback.func == callback)
 
     def log_active_switches(self, **kwargs):
         """Write out entries to the INFO log file of all switches that are currently active."""
